@@ -124,8 +124,10 @@ class Interp:
             return t.args[1]
         if t.op == "chunk":
             return t.args[1]
-        if t.op == "store":
+        if t.op in ("store", "store_range"):
             return self.length_of(t.args[0])
+        if t.op == "slice" and isinstance(t.args[1], int):
+            return t.args[2] - t.args[1]
         return self.lengths.get(t)
 
     def length_of_place(self, pr):
@@ -133,7 +135,10 @@ class Interp:
         v = env.get(pr.args[0])
         if v is None:
             return None
-        for kind, x in pr.args[1]:
+        for prj in pr.args[1]:
+            kind, x = prj[0], prj[1]
+            if kind == "r":
+                return prj[2] - prj[1]
             v = field(v, x) if kind == "f" else index(v, x)
         return self.length_of(v)
 
@@ -169,6 +174,9 @@ class Interp:
             nm = p.get("name", "p%d" % i) if p.get("k") == "Bind" else "p%d" % i
             names.append(nm)
             params.append(args[i] if args is not None else mk("param", nm))
+            m = re.match(r"\[[^;\]]+; (\d+)\]$", strip_ref(p.get("ty", "")))
+            if m and args is None:
+                self.lengths[params[-1]] = int(m.group(1))
         out.params = params
         val, outs = self.apply_body(b, params, fr, top=True)
         out.value = val
@@ -353,17 +361,26 @@ class Interp:
 
     def read_place(self, pl, env):
         v = env.get(pl[0], mk("undef", pl[0]))
-        for kind, x in pl[1]:
-            v = field(v, x) if kind == "f" else index(v, x)
+        for pr in pl[1]:
+            kind, x = pr[0], pr[1]
+            if kind == "f":
+                v = field(v, x)
+            elif kind == "r":
+                v = mk("slice", v, pr[1], pr[2])
+            else:
+                v = index(v, x)
         return v
 
     def write_place(self, pl, val, env):
         def upd(base, projs, val):
             if not projs:
                 return val
-            kind, x = projs[0]
+            kind, x = projs[0][0], projs[0][1]
             if kind == "f":
                 return Tm.update_field(base, x, upd(field(base, x), projs[1:], val))
+            if kind == "r":
+                lo, hi = projs[0][1], projs[0][2]
+                return mk("store_range", base, lo, hi, upd(mk("slice", base, lo, hi), projs[1:], val))
             return store(base, x, upd(index(base, x), projs[1:], val))
         env[pl[0]] = upd(env.get(pl[0], mk("undef", pl[0])), pl[1], val)
 
